@@ -298,16 +298,19 @@ inline int simFirstInvalid(const World& w, int x) {
 
 // ---------------------------------------------------------------------------------------------------------------------
 // Observable digest of both trees (order independent). maskBranchOf: ED blocks on root..maskBranchOf and their descendants
-// have validity marks / FAILED bits masked (the exception the atomicity property grants to the target branch).
+// have validity marks / FAILED bits masked (the exception the atomicity property grants to the target branch).  The
+// subtree of the first block of that branch that is invalid on its own ancestry is masked as well: invalidating a block
+// marks ALL its descendants FAILED_CHILD, including siblings of the target (first seen with 4-block trees).
 inline uint64_t mix(uint64_t h, uint64_t v) { h ^= v + 0x9e3779b97f4a7c15ull + (h << 6) + (h >> 2); return h * 0x100000001b3ull; }
 inline uint64_t digest(World& w, int maskBranchOf, bool includeSpBest, bool maskAllFailed = false) {
   ToyEd& t = *w.t;
   uint64_t sum = 0;
+  int bad = maskBranchOf ? simFirstInvalid(w, maskBranchOf) : 0;
   for (auto* b : t.getBlocks()) {
     uint8_t id = b->getHash().data()[0];
     uint64_t h = mix(7, id);
     uint32_t st = b->getStatus();
-    bool masked = maskBranchOf && (isAncestorOrSelf(w, id, maskBranchOf) || isAncestorOrSelf(w, maskBranchOf, id)) && id != 1;
+    bool masked = maskBranchOf && (isAncestorOrSelf(w, id, maskBranchOf) || isAncestorOrSelf(w, maskBranchOf, id) || (bad && isAncestorOrSelf(w, bad, id))) && id != 1;
     // validity level raises are monotone bookkeeping; compare FAILED bits and ACTIVE
     uint32_t flags = st & (BLOCK_FAILED_MASK | BLOCK_ACTIVE | BLOCK_DELETED);
     if (masked || maskAllFailed) flags &= ~(uint32_t)BLOCK_FAILED_MASK;
